@@ -287,3 +287,24 @@ Fixpoint wf_node (n : node) : bool :=
   | Node name _ _ kids => negb (is_nil name) && no_sep name && forallb wf_node kids
   end.
 Definition wf_view (v : list node) : bool := forallb wf_node v.
+
+(* names additionally different from "." and ".." (what a directory listing can contain) *)
+Definition name_ok (name : bytes) : bool :=
+  negb (is_nil name) && no_sep name && negb (bytes_eqb name s_dot) && negb (bytes_eqb name s_dotdot).
+Fixpoint wf_strict_node (n : node) : bool :=
+  match n with
+  | Node name _ _ kids => name_ok name && forallb wf_strict_node kids
+  end.
+Definition wf_strict (v : list node) : bool := forallb wf_strict_node v.
+
+(* a boolean predicate holds for the path of every entry of the view *)
+Fixpoint all_paths_node (Q : bytes -> bool) (dir : bytes) (n : node) : bool :=
+  match n with
+  | Node name _ _ kids =>
+    let p := child_path dir name in
+    Q p && forallb (all_paths_node Q p) kids
+  end.
+Definition all_paths (Q : bytes -> bool) (v : list node) : bool := forallb (all_paths_node Q []) v.
+
+(* the map function that a nil FilterOpt.Map stands for *)
+Definition id_map (p : bytes) (s : stat) : mres * stat := (MKeep, s).
